@@ -32,9 +32,14 @@ D9 = "C09:count-mode-preexisting-waiting-core"
 
 META = {
     "bounds":
-        "application maps from a menu of 9 shapes: 0, 1 or 2 binaries on 1..3 "
-        "chips x 1..2 cores (<= 6 cores), chips inside one 4x4 block and in "
-        "two different blocks, two binaries sharing a chip; the machine has "
+        "application maps from a menu of 10 shapes: 0, 1 or 2 binaries on "
+        "1..3 chips x 1..2 cores (one shape: 4 cores on a chip; <= 6 cores "
+        "in all), chips inside one 4x4 block and in two different blocks, two "
+        "binaries sharing a chip; cores 16 and 17 (the core mask bits above "
+        "the low half-word) occur in 6 shapes, among them two selections of "
+        "one 4x4 block where the numerically smaller region word carries "
+        "core 17 on the block's first chip, resp. cores 16 and 17 and a "
+        "higher low-mask on its second chip; the machine has "
         "3 more chips nobody asks for; binaries are real temporary files of "
         "fixed pseudo-random bytes, sizes buf-4, buf, buf+4, 2*buf for the "
         "advertised buffer size buf in {16, 32} (all 4 sizes x both buffers "
@@ -444,16 +449,21 @@ def _machine_classes():
 SHAPES = {
     "empty": [],
     "1 core": [{(0, 0): (1,)}],
-    "2 chips 3 cores": [{(0, 0): (1, 2), (1, 0): (3,)}],
+    # two selections in one 4x4 block, the one with the smaller sub-block
+    # bits carries core 17: (0x00030001, 0x20002) then (0x00030002, 0x4)
+    "2 chips 3 cores": [{(0, 0): (1, 17), (1, 0): (2,)}],
+    # ... and the one on the second chip carries cores 16 and 17 and a core
+    # above the shared one: (0x00030002, 0x30020) then (0x00030003, 0x8)
+    "2 chips 5 cores 16 17": [{(0, 0): (3,), (1, 0): (3, 5, 16, 17)}],
     "3 chips same core": [{(0, 0): (1,), (1, 0): (1,), (0, 1): (1,)}],
     "3 chips 6 cores 2 blocks": [{(0, 0): (1, 17), (1, 0): (1, 17),
                                   (4, 4): (2, 3)}],
-    "2 binaries same chip": [{(0, 0): (1,)}, {(0, 0): (2,)}],
+    "2 binaries same chip": [{(0, 0): (16,)}, {(0, 0): (17,)}],
     "2 binaries 2 chips": [{(0, 0): (1,), (1, 0): (1,)}, {(1, 0): (2,)}],
     "2 binaries 3 chips 2 blocks": [{(0, 0): (1,), (1, 0): (1,)},
                                     {(1, 0): (2,), (4, 1): (1, 2)}],
-    "2 binaries 6 cores": [{(0, 0): (1, 2), (1, 0): (1,)},
-                           {(1, 0): (2,), (0, 1): (1, 2)}],
+    "2 binaries 6 cores": [{(0, 0): (1, 17), (1, 0): (1,)},
+                           {(1, 0): (16,), (0, 1): (1, 16)}],
 }
 BYSTANDERS = [(1, 1), (2, 3), (8, 8)]
 SIZE_CODES = {"-4": lambda b: b - 4, "0": lambda b: b, "+4": lambda b: b + 4,
@@ -838,8 +848,8 @@ def units(tier, seed):
          tries=(1,), nn_starts=(125,) if q else (124, 125, 126))
     # fault schedules
     unit("schedules, 1 binary", shapes=(
-        "2 chips 3 cores", "3 chips same core", "3 chips 6 cores 2 blocks"),
-        bufs=(16,) if q else (16, 32),
+        "2 chips 3 cores", "2 chips 5 cores 16 17", "3 chips same core",
+        "3 chips 6 cores 2 blocks"), bufs=(16,) if q else (16, 32),
         nn_starts=(124,) if q else (0, 124, 126), split=6 if q else 8)
     unit("schedules, 2 binaries", shapes=(
         "2 binaries 2 chips", "2 binaries 3 chips 2 blocks"), split=8,
